@@ -184,12 +184,24 @@ from optuna.storages.journal._base import BaseJournalBackend, BaseJournalSnapsho
 import json  # noqa: E402
 
 
+_LIST_SHARED: dict[int, dict] = {}
+
+
+def _list_backend_of(key: int) -> "ListBackend":
+    return ListBackend(_LIST_SHARED[key])
+
+
 class ListBackend(BaseJournalBackend, BaseJournalSnapshot):
     """Boring journal backend: a Python list of JSON strings (records cross json like on a
     file) and one snapshot slot."""
 
     def __init__(self, shared: dict | None = None) -> None:
         self.shared = shared if shared is not None else {"logs": [], "snapshot": None}
+
+    def __reduce__(self) -> tuple:
+        # a pickled backend (storage handed to a child process) still names the SAME log
+        _LIST_SHARED[id(self.shared)] = self.shared
+        return (_list_backend_of, (id(self.shared),))
 
     def read_logs(self, log_number_from: int) -> list[dict[str, Any]]:
         return [json.loads(s) for s in self.shared["logs"][log_number_from:]]
